@@ -57,7 +57,7 @@ def run_tests(pid, tier, only=None):
             with open(target, 'a') as f:
                 f.write('\n#[cfg(rozukke_lace_verif)]\n#[path = "%s"]\nmod verif_native_%s;\n' % (
                     os.path.join(NDIR, t['file']), t['file'][:-3]))
-        env = dict(os.environ, CARGO_NET_OFFLINE="true", RUSTFLAGS="--cfg rozukke_lace_verif", VERIF_NATIVE_OUT=os.path.join(d, "verif_native.out"),
+        env = dict(os.environ, CARGO_NET_OFFLINE="true", RUSTFLAGS="--cfg rozukke_lace_verif", VERIF_NATIVE_OUT=os.path.join(d, "verif_native.out"), VERIF_NATIVE_TIER=tier,
                    CARGO_TARGET_DIR=os.path.join(SCRATCH_ROOT, 'lace-native-target'))
         if any(t.get('needs_bin') for t in regs):
             # process-level tests drive the real binary built from the same scratch copy (without the test cfg)
@@ -67,7 +67,7 @@ def run_tests(pid, tier, only=None):
             if b.returncode == 0 and os.path.exists(binp):
                 shutil.copy(binp, os.path.join(d, 'lace-under-test'))
                 env['VERIF_LACE_BIN'] = os.path.join(d, 'lace-under-test')
-        cmd = ['cargo', 'test', '--offline', '--lib', '--bins', '--release', 'verif_native', '--', '--test-threads', '8']
+        cmd = ['cargo', 'test', '--offline', '--no-fail-fast', '--lib', '--bins', '--release', 'verif_native', '--', '--test-threads', '8']
         try:
             p = subprocess.run(cmd, cwd=d, env=env, capture_output=True, text=True, stdin=subprocess.DEVNULL, timeout=3000 if tier == 'thorough' else 1200)
             text = p.stdout + '\n=====STDERR=====\n' + p.stderr
